@@ -15,6 +15,7 @@
 -/
 import AM.Lemmas.Decode
 import AM.Lemmas.CrashRead
+import AM.Lemmas.CrashHist
 
 namespace AM.Snapshot
 
@@ -264,6 +265,124 @@ theorem crash_old_or_new (target tmp : String) (trunc : Bool) (old : Option Byte
     cases old <;> simp [initial, FS.dirNow, Dir.get, Ne.symm hne]
   exact (crash_any_point_loads_old_or_new _ tmp target trunc chunks _ _ hne hfresh (initial_inv target old) i j m).1
 
+/-! ### histories in which attempts CRASH: their temp files stay on the disk -/
+
+/-- The discipline the argument needs of every attempt of a history, evaluated
+    in the state the attempt starts in: the temp name is not the target, and the
+    temp file is empty when written — the open truncates (`O_TRUNC`, what
+    `os.Create` does) OR the name does not exist at that moment. -/
+def HistOK (F : String) : FS → List Attempt → Prop
+  | _, [] => True
+  | fs, a :: rest =>
+    a.tmp ≠ F ∧ (a.trunc = true ∨ fs.dirNow.get a.tmp = none) ∧ HistOK F (runAttempt F fs a) rest
+
+theorem runAttempt_inv {fs : FS} {F : String} {Q : Option Bytes → Prop} (h : HInv fs F Q) (a : Attempt)
+    (hne : a.tmp ≠ F) (hopen : a.trunc = true ∨ fs.dirNow.get a.tmp = none) :
+    HInv (runAttempt F fs a) F (fun r => Q r ∨ r = some a.chunks.flatten) := by
+  unfold runAttempt
+  cases hc : a.crash with
+  | none =>
+    have := HInv_attempt_point h a.tmp hne a.trunc hopen a.chunks (snapshotOps a.tmp a.trunc F a.chunks).length
+    simpa using this
+  | some c =>
+    obtain ⟨i, j, ms⟩ := c
+    exact (HInv_attempt_point h a.tmp hne a.trunc hopen a.chunks i).crashFS j ms
+
+theorem runHist_inv (F : String) (as : List Attempt) :
+    ∀ (fs : FS) (Q : Option Bytes → Prop), HInv fs F Q → HistOK F fs as →
+      HInv (runHist F fs as) F (fun r => Q r ∨ ∃ a ∈ as, r = some a.chunks.flatten) := by
+  induction as with
+  | nil =>
+    intro fs Q h _
+    exact h.mono fun r hr => Or.inl hr
+  | cons a as ih =>
+    intro fs Q h hok
+    obtain ⟨hne, hopen, hrest⟩ := hok
+    have h1 := runAttempt_inv h a hne hopen
+    have h2 := ih _ _ h1 hrest
+    simp only [runHist, List.foldl_cons] at h2 ⊢
+    refine h2.mono ?_
+    intro r hr
+    rcases hr with (hq | hq) | ⟨b, hb, hq⟩
+    · exact Or.inl hq
+    · exact Or.inr ⟨a, by simp, hq⟩
+    · exact Or.inr ⟨b, by simp [hb], hq⟩
+
+theorem initial_HInv (F : String) (old : Option Bytes) : HInv (initial F old) F (fun r => r = old) := by
+  cases old with
+  | none =>
+    refine ⟨?_, ?_, ?_, ?_⟩
+    · intro j p id h; simp [initial, FS.dirAt, Dir.get] at h
+    · intro j p q id h; simp [initial, FS.dirAt, Dir.get] at h
+    · intro j id p h; simp [initial, FS.dirAt, Dir.get] at h
+    · intro j m; simp [initial, crashRead, FS.dirAt, Dir.get]
+  | some o =>
+    refine ⟨?_, ?_, ?_, ?_⟩
+    · intro j p id h
+      simp [initial, FS.dirAt, Dir.get] at h
+      simp [initial]; omega
+    · intro j p q id hp hq
+      simp [initial, FS.dirAt, Dir.get] at hp hq
+      rw [← hp.1, ← hq.1]
+    · intro j id p hF hne hp
+      simp [initial, FS.dirNow, Dir.get] at hp
+      exact hne hp.1.symm
+    · intro j m; simp [initial, crashRead, FS.dirAt, Dir.get, List.take_of_length_le]
+
+/-- **crashed_attempts_history.**  Over a data directory that starts with a
+    complete snapshot (or none), run ANY history of snapshot attempts, each of
+    which may complete or crash at any point `(i, j, ms)` — the machine then
+    restarts on what reached the disk, temp file of the interrupted attempt
+    included.  If every attempt keeps the discipline `HistOK` (temp name ≠
+    target; truncating open or a name that does not exist), then in every crash
+    state of the end of the history the target holds what was there at the start
+    or the COMPLETE content of ONE attempt: never a torn file, never a mix of two
+    states.  (A crash during the last attempt is a history whose last attempt
+    has `crash = some …`.) -/
+theorem crashed_attempts_history (F : String) (old : Option Bytes) (as : List Attempt)
+    (hok : HistOK F (initial F old) as) (j m : Nat) :
+    crashRead (runHist F (initial F old) as) j m F = old ∨
+    ∃ a ∈ as, crashRead (runHist F (initial F old) as) j m F = some a.chunks.flatten :=
+  (runHist_inv F as _ _ (initial_HInv F old) hok).weak j m
+
+/-- the code as it is opens the temp file with `os.Create` = `O_TRUNC`: the
+    discipline holds whatever names the attempts use (even one fixed name) -/
+theorem histOK_of_trunc (F : String) (as : List Attempt) (h : ∀ a ∈ as, a.tmp ≠ F ∧ a.trunc = true) :
+    ∀ fs, HistOK F fs as := by
+  induction as with
+  | nil => intro fs; trivial
+  | cons a as ih =>
+    intro fs
+    exact ⟨(h a (by simp)).1, Or.inl (h a (by simp)).2, ih (fun b hb => h b (by simp [hb])) _⟩
+
+theorem crashed_attempts_history_trunc (F : String) (old : Option Bytes) (as : List Attempt)
+    (h : ∀ a ∈ as, a.tmp ≠ F ∧ a.trunc = true) (j m : Nat) :
+    crashRead (runHist F (initial F old) as) j m F = old ∨
+    ∃ a ∈ as, crashRead (runHist F (initial F old) as) j m F = some a.chunks.flatten :=
+  crashed_attempts_history F old as (histOK_of_trunc F as h _) j m
+
+/-- **Without the discipline the statement is false.**  One fixed temp name
+    opened WITHOUT `O_TRUNC`: an attempt writing `[2,3,4,5]` crashes after its
+    write (the link and the four bytes reached the disk); the next attempt
+    writes the shorter `[9]` over the stale file, syncs, renames — and the
+    completed snapshot reads `[9,3,4,5]`: a mix of two states. -/
+theorem stale_temp_without_trunc_mixed :
+    crashRead (runHist "f" (initial "f" (some [1, 1]))
+      [{ tmp := "t", trunc := false, chunks := [[2, 3, 4, 5]], crash := some (2, 1, fun _ => 4) },
+       { tmp := "t", trunc := false, chunks := [[9]] }]) 1 0 "f" = some [9, 3, 4, 5] := by decide
+
+/-- … with `O_TRUNC` on the same fixed name the same history is clean -/
+theorem stale_temp_with_trunc_clean :
+    crashRead (runHist "f" (initial "f" (some [1, 1]))
+      [{ tmp := "t", trunc := true, chunks := [[2, 3, 4, 5]], crash := some (2, 1, fun _ => 4) },
+       { tmp := "t", trunc := true, chunks := [[9]] }]) 1 0 "f" = some [9] := by decide
+
+/-- … and so is a fresh name per attempt without `O_TRUNC` -/
+theorem stale_temp_fresh_name_clean :
+    crashRead (runHist "f" (initial "f" (some [1, 1]))
+      [{ tmp := "t1", trunc := false, chunks := [[2, 3, 4, 5]], crash := some (2, 1, fun _ => 4) },
+       { tmp := "t2", trunc := false, chunks := [[9]] }]) 2 0 "f" = some [9] := by decide
+
 /-! ### the order matters: the same model condemns the obvious wrong orders -/
 
 /-- rename before fsync: a crash after the rename keeps an arbitrary prefix of the new file -/
@@ -330,6 +449,23 @@ theorem oversize_record_refused :
     simp [encodeState, encodeRecord, rawCodec, encodeVarint_small]
   rw [this]; decide
 
+/-- The bound is tight at every limit: ANY record whose payload is longer than
+    the reader's `MaxSize` is refused by the loader, although the writer emitted
+    it (4 MiB = protodelim's default in the code as it is, finding F9; a smaller
+    read-side limit refuses correspondingly more of what the store writes). -/
+theorem oversize_record_refused_any (maxSize : Nat) (p : Bytes) (h : maxSize < p.length) (hu : p.length < 2 ^ 64) :
+    decodeState rawCodec maxSize (encodeState rawCodec [p]) = .error := by
+  have henc : encodeState rawCodec [p] = encodeRecord p := by simp [encodeState, rawCodec]
+  rw [henc]
+  unfold decodeState
+  rw [decodeLoop]
+  have hr : readRecord maxSize (encodeRecord p) = .err := by
+    rw [readRecord_ne_nil _ _ (encodeRecord_ne_nil p)]
+    unfold encodeRecord
+    rw [varint_roundtrip _ _ hu]
+    simp [h]
+  rw [hr]
+
 /-- … while the same record within the limit loads -/
 example : decodeState rawCodec 3 (encodeState rawCodec [[7, 7, 7]]) = .ok [[7, 7, 7]] := by
   have : encodeState rawCodec [[7, 7, 7]] = [3, 7, 7, 7] := by
@@ -344,6 +480,30 @@ theorem restart_keeps_muting_and_dedup {M β} (c : Codec M) (maxSize : Nat) (ms 
      | .ok loaded => some (observe loaded)
      | _ => none) = some (observe ms) := by
   rw [decode_encode c maxSize ms hg]
+
+/-- **never_refuses_own_file (partial), over histories with crashed attempts
+    and with the bound spelled out**: every record of every state that was ever
+    serialised is at most 4 MiB = 4194304 bytes long (`Good … defaultMaxSize`,
+    the limit `decodeState` reads with).  Then whatever the crash points of the
+    history, the file at the target path decodes to the complete state the
+    directory started with or to the complete state of ONE attempt. -/
+theorem history_never_refuses_own_file_partial {M} (c : Codec M) (F : String) (oldS : List M)
+    (as : List Attempt) (st : Attempt → List M)
+    (hold : ∀ m ∈ oldS, Good c defaultMaxSize m)
+    (hst : ∀ a ∈ as, a.chunks.flatten = encodeState c (st a) ∧ ∀ m ∈ st a, Good c defaultMaxSize m)
+    (hok : HistOK F (initial F (some (encodeState c oldS))) as) (j m : Nat) :
+    match crashRead (runHist F (initial F (some (encodeState c oldS))) as) j m F with
+    | none => False
+    | some bytes =>
+      decodeState c defaultMaxSize bytes = .ok oldS ∨ ∃ a ∈ as, decodeState c defaultMaxSize bytes = .ok (st a) := by
+  rcases crashed_attempts_history F (some (encodeState c oldS)) as hok j m with h | ⟨a, ha, h⟩
+  · rw [h]; left; exact decode_encode c defaultMaxSize oldS hold
+  · rw [h, (hst a ha).1]; right
+    exact ⟨a, ha, decode_encode c defaultMaxSize (st a) (hst a ha).2⟩
+
+/-- the bound of the partial theorems, in figures -/
+theorem good_size_is_4MiB {M} (c : Codec M) (m : M) (g : Good c defaultMaxSize m) :
+    (c.encodeMsg (c.pre m)).length ≤ 4194304 := g.size
 
 /-! ### non-vacuity -/
 
